@@ -324,6 +324,13 @@ func (w *World) pureContract(pkgPath, name string) *Contract {
 	}
 	if i := strings.Index(name, "."); i >= 0 {
 		q, rest := name[:i], name[i+1:]
+		// the import name as used in the package the contract belongs to wins (several loaded
+		// packages may share a last path element, e.g. chain and internal/chain)
+		if imp := w.importedPkg(pkgPath, q); imp != nil {
+			if c := try(imp.Path(), rest); c != nil {
+				return c
+			}
+		}
 		for path := range w.Pkgs {
 			if path == q || strings.HasSuffix(path, "/"+q) {
 				if c := try(path, rest); c != nil {
